@@ -799,5 +799,9 @@ pub fn repair(bytes: &[u8], key_indices: &[usize], unauthenticated: bool) -> Res
     // an archive whose header announces no encryption is repaired without keys for even lengths (the route
     // of the convenience constructor ArchiveFailSafeReader::new)
     let keys: &[usize] = if bytes.len() > 7 && bytes[7] & 1 == 0 && bytes.len() % 2 == 0 { &[] } else { key_indices };
+    // one input length in four is repaired from a source that returns at most 5 bytes per read call
+    if bytes.len() % 4 == 3 {
+        return repair_route(CapRead { inner: bytes, cap: 5 }, keys, unauthenticated, bytes.len());
+    }
     repair_route(bytes, keys, unauthenticated, bytes.len())
 }
